@@ -59,3 +59,27 @@ func init() {
 		LevelText: "exploration: predictions of the counter model are asserted for every unsubscribe issued without an overlapping request on the same resource; the hooked direct counts and leftover subscriptions are checked at every quiescent point",
 		LevelNote: "trusted base: VerifConns hook snapshot taken on the connection's own worker, RefClient accounting"})
 }
+
+func init() {
+	add(&Prop{ID: "C12", Level: "exploration", Shards: 16,
+		Technique:   "runtime monitoring: differential oracle over enumerated inputs of the exported pattern matcher and the hook-exported reset/diff pipeline (events applied to the old state must give the new state), plus reset histories against the real gateway",
+		Rule:        "layer 1: every pattern over {a,b,.,*,>} x every name over {a,b,.} up to the stated length (exhaustive) plus random longer ones with other bytes, compared with an independent token-wise NATS matcher (no panic on any input); layer 2: every pair of collections over a 3-symbol alphabet up to the stated length and every pair of models over 3 keys x 6 value kinds (exhaustive) plus random longer collections with duplicates and mixed value kinds, run through the real reset pipeline and replayed on the old state; layer 3: generated histories with silent mutations + system.reset; non-trivial = valid wildcard pattern x valid name, differing old/new pair, history with delivered events; distinct = disjoint enumeration indices / interleaving signatures",
+		Assumptions: []string{"the reference matcher implements NATS subject wildcard semantics as the property states them", "VerifCollectionReset/VerifModelReset run the unmodified processReset*/handleEvent* code on a stand-alone cache entry"},
+		DesignRef:   "DESIGN.md §4 C12",
+		LevelText:   "exploration with exhaustive enumeration of the stated small input spaces: the matcher and the diff pipeline are decided completely for those spaces, sampled beyond; the system layer checks the re-fetch set and convergence on generated histories",
+		LevelNote:   "trusted base: reference matcher, event replay code in the harness, hook wrappers"})
+	add(&Prop{ID: "C05", Level: "exploration", Shards: 16,
+		Technique:   "runtime monitoring: differential oracle over enumerated call lists x methods against the exported Access.CanCall, plus boundary-log checker of call/auth/access requests in generated histories",
+		Rule:        "layer 1: every call list over {a,b,',','*'} up to the stated length x 9 methods (exhaustive), reference = '*' or exact comma-separated entry; non-trivial = the method occurs inside the list string without being equal to it; layer 2: histories with call/auth/new over WebSocket and HTTP with token changes",
+		Assumptions: []string{"method names never contain ',' or '*' (enforced by request validation, C14)"},
+		DesignRef:   "DESIGN.md §4 C05",
+		LevelText:   "exploration with exhaustive enumeration of the stated call-list space, plus monitored histories for gating and token currency",
+		LevelNote:   "trusted base: reference matcher (strings.Split + equality), SimBus request log"})
+	add(&Prop{ID: "C17", Level: "exploration", Shards: 16,
+		Technique:   "runtime monitoring: differential oracle over generated origins x allow-lists (byte-wise reference), enumerated error-code table, and HTTP/WebSocket monitors for meta status/header handling",
+		Rule:        "origins and allow-lists built from hostile atoms (case variants, ports, prefixes/suffixes, non-ASCII, invalid UTF-8, U+FFFD, Kelvin sign) compared with a byte-wise ASCII-case-insensitive reference; every predefined and 2000 random error codes against the fixed status table; non-trivial = origin differs from the allowed entry; distinct = distinct (list, origin) pairs",
+		Assumptions: []string{"allow-list entries are lower-cased by configuration as the code does"},
+		DesignRef:   "DESIGN.md §4 C17",
+		LevelText:   "exploration: generated inputs against independent references; tables enumerated completely",
+		LevelNote:   "trusted base: the byte-wise reference comparison, the status table copied from the property text"})
+}
